@@ -105,7 +105,8 @@ def umacro_docs():
 TEX_SPECIALS = ["\\e", "{", "}", "$", "&", "#", "^", "_", "%", "~", "\xa0"]
 TEXT_POSITIONS = ["%s", "x %s y", ".Sm %s", ".Sm a %s", ".Bm\n%s\n.Em", ".Ch %s", ".Sh %s\n.Tc", ".P %s", ".Bl\n.It %s\n.El", ".Bl -t desc\n.It %s\nv\n.El",
                   ".Bl -t table %s\n.It %s\n.Ta %s\n.El\n.Tc -lot", ".Bl -t verse %s\n.It %s\n.El", ".Lk http://a %s", ".Im i.png %s\n.Tc -lof",
-                  ".Sm -id %s w", ".Bm -id %s\nt\n.Em", ".Bd -id %s\nt\n.Ed", ".Ch -id %s T\n.Sx %s", ".Bl -id %s\n.It a\n.El", ".D\n%s", ".#dv v %s\n\\*[v]", ".Lk %s", ".Lk %s l", ".Im -link %s i.png"]
+                  ".Sm -id %s w", ".Bm -id %s\nt\n.Em", ".Bd -id %s\nt\n.Ed", ".Ch -id %s T\n.Sx %s", ".Bl -id %s\n.It a\n.El", ".D\n%s", ".#dv v %s\n\\*[v]", ".Lk %s", ".Lk %s l", ".Im -link %s i.png",
+                  ".Lk http://a.b/?q=%s", ".Lk http://a.b/?q=%s l", ".Lk http://a.b/c#%s"]
 
 
 def position_docs(specials, n, positions=TEXT_POSITIONS):
@@ -127,8 +128,8 @@ class C04(E2EProp):
     id = "C04"
     cone = ["Properties/C04.vo"]
     prop_file = "Properties/C04.v"
-    theorems = ["C04_escape_decodable", "C04_escape_injective", "C04_specials_only_in_escape_forms", "C04_escape_is_rune_by_rune", "C04_escape_compositional", "C04_escaped_text_is_brace_neutral", "C04_headers_balanced_partial", "C04_inline_titles_balanced"]
-    partial = ["C04 balance half is proved for the sub-language of Proofs/FragHL.v (text, Bm/Em/Sm, P with title, Bd/Ed at any depth, headers, Tc; fragment mode) against the brace machine of Proofs/TokL.v, which does not read environments; lists, tables, verse, links, images, user macros and the standalone preamble are tied by S-e2e bytes and searched by the TeX balance oracle"]
+    theorems = ["C04_escape_decodable", "C04_escape_injective", "C04_specials_only_in_escape_forms", "C04_escape_is_rune_by_rune", "C04_escape_compositional", "C04_escaped_text_is_brace_neutral", "C04_url_is_brace_neutral", "C04_headers_balanced_partial", "C04_inline_titles_balanced"]
+    partial = ["C04 balance half is proved for the sub-language of Proofs/FragHL.v (text, Bm/Em/Sm, P with title, D, Lk with any url, Bd/Ed at any depth, headers, Tc; fragment mode) against the brace machine of Proofs/TokL.v, which does not read environments; lists, tables, verse, images, user macros and the standalone preamble are tied by S-e2e bytes and searched by the TeX balance oracle"]
     oracle = staticmethod(oracles.c04_oracle)
     assumptions = ["escape.LaTeX = strings.Replacer over latexEscapes = Repl.enc latex_table (translator checks the shape of escape.go; stream S-esc-latex)",
                    "processor + LaTeX exporter = Model/Loop.compile_source (stream S-e2e-latex)"]
@@ -136,7 +137,7 @@ class C04(E2EProp):
     def plan(self, tier, rng):
         pos = [e2e.case_of("l0", d) for d in position_docs(TEX_SPECIALS, T(tier, 1, 2))] + [e2e.case_of("l0", d) for d in position_docs(["a%_b", "x#y", "50%_off", "{}", "\\e\\e"], 1)]
         return [("S-e2e-latex", fam_cases("l0", ALLFAM, T(tier, 3, 4), rng, 2, T(tier, 1500, 20000)), "LaTeX fragments: all sequences <= %d over 10 family alphabets, skeletons, random" % T(tier, 3, 4)),
-                ("S-e2e-latex-positions", pos, "TeX-special strings <= %d in %d text-bearing positions (text, titles, items, cells, captions, labels, ids, urls)" % (T(tier, 1, 2), len(TEXT_POSITIONS)))]
+                ("S-e2e-latex-positions", pos, "TeX-special strings <= %d in %d text-bearing positions (text, titles, items, cells, captions, labels, ids, urls: path, query and fragment)" % (T(tier, 1, 2), len(TEXT_POSITIONS)))]
 
     def streams(self, tier, rng):
         return [esc_stream("latex", tier, rng, "\\{}$&#^_%~[]\xa0")] + super().streams(tier, rng)
